@@ -218,7 +218,8 @@ class Decl:
 
 
 def random_plan(rng, money=False, max_base=4, max_derived=4, max_units=4,
-                aliases=True, noref=True, quanta=True, int_terms=True):
+                aliases=True, noref=True, quanta=True, int_terms=True,
+                force_quantum=False):
     """A valid declaration plan (list of Decl in dependency order) and the
     resulting model."""
     w = World()
@@ -246,7 +247,9 @@ def random_plan(rng, money=False, max_base=4, max_derived=4, max_units=4,
             (i == nb - 1 and with_ref == 0)
         if has_ref:
             with_ref += 1
-            q = rng.choice(QUANTA) if quanta and rng.random() < 0.2 else None
+            q = rng.choice(QUANTA) if quanta and (
+                rng.random() < 0.2 or (force_quantum and with_ref == 1)) \
+                else None
             add(Decl("base", name=name, ref=L + "0", refname="ref " + L,
                      quantum=q))
         else:
@@ -265,7 +268,8 @@ def random_plan(rng, money=False, max_base=4, max_derived=4, max_units=4,
                      ref=(L + "0") if rng.random() < 0.7 else None,
                      form=rng.choice(["ops", "term"]),
                      quantum=(rng.choice(QUANTA)
-                              if quanta and rng.random() < 0.12 else None))
+                              if quanta and rng.random() <
+                              (0.5 if force_quantum else 0.12) else None))
             if d.p["quantum"] is not None or d.p["ref"] is not None:
                 # explicit symbol / quantum only make sense with a ref unit
                 from .models.world import reduce_typedef
